@@ -132,6 +132,7 @@ def run(chk):
         rule_wrap(chk, ec, "evaluate_cast")
     if ecx:
         rule_sites(chk, ecx)
+    rule_literal_fold(chk)
 
 
 def outer_match(fn, adt):
@@ -494,3 +495,69 @@ def rule_sites(chk, ecx):
         chk.ob("C13.sites/reach/" + what, ok, "reaches evaluate_constexpr" if ok else
                "%s (%s) no longer reaches evaluate_constexpr" % (what, fn_name), where(ecx), sample={"position": what})
     chk.note("evaluate_constexpr users: %s" % dict(sorted(users.items())))
+
+
+def exact_var(x, scope, depth=0):
+    """The variable an expression IS (through borrows, copies and plain `let y = x;` aliases) - casts are not peeled."""
+    x = F.strip(x)
+    if x.get("k") == "Var":
+        if depth < 4:
+            for s in F.walk(scope):
+                if s.get("k") == "LetStmt" and s["pat"].get("k") == "Bind" and s["pat"]["id"] == x["id"] and "init" in s:
+                    return exact_var(s["init"], scope, depth + 1)
+        return x["id"]
+    return None
+
+
+def rule_literal_fold(chk):
+    """ImplicitConversion::apply folds an untyped literal into the target type instead of emitting a cast: the folded
+    constant must be what evaluate_cast computes for the same conversion - Constant::<kind of the target>, bool as
+    `v != 0` on the literal's own (unnarrowed) value, numbers as one conversion of the literal's value."""
+    f = chk.facts
+    app = chk.anchor("C13.anchor/ImplicitConversion::apply", f.fn("apply", TY, self_ty="ImplicitConversion"), "ImplicitConversion::apply")
+    if not app:
+        return
+    n = 0
+    for iff in F.exprs(app["thir"], "If"):
+        c = F.strip(iff["cond"])
+        if c.get("k") != "Let":
+            continue
+        lit = [q for q in F.walk(c["pat"]) if isinstance(q, dict) and q.get("k") == "Variant" and q.get("variant") in ("IntLiteral", "FloatLiteral")]
+        if not lit:
+            continue
+        src = lit[0]["variant"]
+        binds = [i for i, nm, path in F.pat_binds(lit[0])]
+        if len(binds) != 1:
+            continue
+        vid = binds[0]
+        for m in F.exprs(iff["then"], "Match"):
+            for arm in m["arms"]:
+                alt = F.pat_alternatives(arm["pat"])[0]
+                pv = F.pat_variant(alt)
+                if not pv or pv[1] != "Scalar":
+                    continue
+                inner = F.pat_sub(alt, "0")
+                target = inner.get("variant") if inner and inner.get("k") == "Variant" else None
+                if target is None:
+                    continue
+                want = SCALAR2CONST.get(target)
+                res = [a for a in F.exprs(arm["body"], "Adt") if short(a["adt"]) == "Constant" and a["fields"]]
+                if not res:
+                    continue
+                n += 1
+                kind = res[0]["variant"]
+                payload = res[0]["fields"][0]["e"]
+                ok = kind == want
+                why = "Constant::%s" % kind
+                if ok and target == "Bool":
+                    o = operation_of(payload)
+                    ok = o[0] == "bin" and o[1] == "Ne" and exact_var(o[2], iff["then"]) == vid and F.lit(o[3]) is not None and float(F.lit(o[3])[1]) == 0.0
+                    why = "Bool(v != 0) on the literal's own value" if ok else \
+                        "a %s folded to bool is not `v != 0` on the literal's own value (the operand is narrowed or replaced first): literals whose low bits are zero become false, unlike evaluate_cast and the run-time conversion" % src
+                elif ok:
+                    ok = var_id(payload, iff["then"]) == vid
+                    why = "one conversion of the literal's value" if ok else "the folded %s payload does not come from the literal" % target
+                else:
+                    why = "a %s folded for a %s target becomes Constant::%s, must be Constant::%s" % (src, target, kind, want)
+                chk.ob("C13.fold/%s/to-%s" % (src, target), ok, why, where(app, arm), sample={"from": src, "target": target, "result": kind})
+    chk.floor("C13.floor/literal-fold", n, 12, "literal x target entries folded by ImplicitConversion::apply", where(app))
